@@ -178,8 +178,9 @@ class Setup:
             v[:, 3] += 2  # non-degenerate; random chirality so check_chirality has work to do
             o = np.random.default_rng(1).normal(size=(4, 3)) * 3
             p = np.ones((4, 3))
-            for a in (v, o, p):
-                a.flags.writeable = False
+            if sc["fire_at"] % 2:  # write sanitizer variant; otherwise plain byte comparison of writeable arrays
+                for a in (v, o, p):
+                    a.flags.writeable = False
             self.arrays = [v, o, p]
         self.F = F
 
@@ -256,6 +257,13 @@ def run_one(ctx, sc, inject=None):
             pr._apply(code)
     after = st.snapshot()
     case = {"scenario": sc, "inject": None if inject is None else [inject[0].__name__, inject[1], inject[2]]}
+    if sc["fault"] == "functional_readonly" and inject is None and raised is not None:
+        # every input of this scenario is valid: the only way to fail is an attempted write into the caller's
+        # (read-only) arrays - the write sanitizer turned the mutation into an exception
+        ctx.evaluated(case, nontrivial=True)
+        ctx.violation({"stage": "A", "fault": sc["fault"], "kind": "write-into-caller-array", "raised": type(raised).__name__},
+                      case, exc_info(raised))
+        return st, raised, True
     ntile = tiled_count(sc)
     fired = inject is None or hits["n"] >= (inject[2] if inject else 0)
     if inject is not None and not isinstance(raised, probes.InjectedFault):
